@@ -3,45 +3,49 @@
 package zz_verif
 
 import (
-	"berty.tech/go-ipfs-log/entry/sorting"
+	"berty.tech/go-ipfs-log/iface"
 	"berty.tech/go-ipfs-log/internal/vx"
 )
 
-// H_C16: size-bounded merge keeps exactly the newest entries of the full merge.
+// H_C16: a size-bounded merge keeps exactly the newest entries of the full merge.
+// A and B are the two replicas of an arbitrary history (diverged, partially overlapping, already merged,
+// empty); the bound n is a symbolic integer in [0, total+2]; the twin A2 performs the unbounded merge.
 func H_C16() {
-	api := newMemAPI()
-	idA, idB := mockIdentity("A", []byte{1}), mockIdentity("B", []byte{1})
-	A := newLog(api, idA, sorting.SortByEntryHash)
-	B := newLog(api, idB, sorting.SortByEntryHash)
-	A2 := newLog(api, idA, sorting.SortByEntryHash)
-	na := vx.Choice("na", 3)
-	nb := vx.Choice("nb", 3)
-	for i := 0; i < na; i++ {
-		A.Append(ctx, []byte{byte(i)}, nil)
-	}
-	for i := 0; i < nb; i++ {
-		B.Append(ctx, []byte{byte(10 + i)}, nil)
-	}
+	cfg := histParams()
+	cfg.R = 2
+	h := newHist(cfg)
+	h.run(nil, nil)
+	A, B := h.logs[0], h.logs[1]
+	A2 := freshObserver(h, 0)
 	A2.Join(A, -1)
-	total := na + nb
-	n := vx.IntRange("size", 0, total+2)
-	_, err := A.Join(B, n)
-	vx.Assert("C16", err == nil, "bounded join succeeds")
 	A2.Join(B, -1)
 	full := A2.Values().Slice()
-	k := n
-	if k > len(full) {
-		k = len(full)
-	}
-	want := full[len(full)-k:]
+	total := len(full)
+	n := vx.IntRange("size", 0, total+2)
+	_, err := A.Join(B, n)
+	vx.Assert("C16", err == nil, "a size-bounded merge of a valid log succeeds")
 	got := A.Values().Slice()
-	vx.Assert("C16", len(got) == len(want), "keeps min(n,total) entries")
-	for i := range got {
-		if i < len(want) {
-			vx.Assert("C16", got[i].GetHash().String() == want[i].GetHash().String(), "keeps the last n of the unbounded merge")
-		}
+	if vx.Param("SORT", sortHash) != sortHash && !h.strictTotal() {
+		return
 	}
-	vx.Assert("C16", sameSet(hashSet(A.Heads().Slice()), refHeads(A.GetEntries().Slice())), "heads of truncated set")
+	k := n
+	if k > total {
+		k = total
+		vx.Cover("bound-exceeds-total")
+	}
+	if k < total {
+		vx.Cover("truncating")
+	}
+	want := full[total-k:]
+	vx.Assert("C16", len(got) == k && A.Len() == k, "the log holds exactly min(n, total) entries")
+	vx.Assert("C16", sameSeq(got, want), "the log holds exactly the last min(n,total) entries of the unbounded merge's linearisation")
+	wantHeads := refHeads(want)
+	vx.Assert("C16", sameSet(hashSet(A.Heads().Slice()), wantHeads), "heads are the unreferenced entries among the kept ones")
+	var ge []iface.IPFSLogEntry = A.GetEntries().Slice()
+	vx.Assert("C16", sameSet(hashSet(ge), hashSet(want)), "the entry index holds exactly the kept entries")
+	if n >= total {
+		vx.Assert("C16", sameSeq(got, full) && sameSet(hashSet(A.Heads().Slice()), hashSet(A2.Heads().Slice())), "a bound at least as large as the merged size behaves like the unbounded merge")
+	}
 	vx.Cover("c16-done")
 }
 
